@@ -280,8 +280,50 @@ def check_C18(ctx, unit, nbits):
                 if a.lo < b.hi:
                     bad.append("%s at %s: left operand ranges over %s, right over %s — the unsigned difference can wrap" % (
                         canon(n)[:50], n.loc, a, b))
+            # unsigned decrements (count-down loops): `--i` needs i >= 1, i.e. the loop's lower bound must be known positive
+            # (`i >= wshift` keeps a size_t counter alive for ever when wshift can be 0)
+            decs = sorted([n for n in f.events() if n.kind == "UnaryOperator" and n.op == "--" and n.children and
+                           n.children[0].strip().kind == "DeclRefExpr" and n.children[0].strip().get("bits") and not n.children[0].strip().get("sgn")
+                           and not (n.children[0].strip().get("t") or "").rstrip().endswith("*")],
+                          key=lambda n: n.loc)
+            for n in decs:
+                iv_ = n.children[0].strip()
+                env = {"__inits__": {d: i for d, i in inits.items() if not RA._reassigned(f, d) and (i.get("bits") or i.strip().get("bits"))}}
+                keyof = lambda x: (x.strip().d["d"] if x.strip().kind == "DeclRefExpr" and (x.strip().d["d"] == pid or x.strip().d["d"] in env["__inits__"]) else None)
+                facts = flow.facts_at(f, n.id)
+                for cond, truth in facts:
+                    env = RB.refine_env(env, cond, truth, keyof)
+                # x % K == 0 and x >= 1 give x >= K
+                for _ in range(2):
+                    for d, ini in env["__inits__"].items():
+                        cur = env.get(d)
+                        m = ini.strip()
+                        if cur is not None and cur.lo == 0 and cur.hi == 0 and m.kind == "BinaryOperator" and m.op == "%":
+                            kx, K = keyof(m.children[0]), m.children[1].strip().cv()
+                            if kx is not None and K and kx in env and env[kx].lo >= 1:
+                                lo = ((env[kx].lo + K - 1) // K) * K
+                                env[kx] = RB.Iv(max(env[kx].lo, lo), env[kx].hi)
+                                # intervals of locals computed from x are recomputed from their initialisers
+                                for d2 in list(env["__inits__"]):
+                                    if d2 != d and d2 in env:
+                                        del env[d2]
+                lo_i = 0
+                for cond, truth in facts:
+                    rel = flow.fact_relation(cond, truth)
+                    if rel is None:
+                        continue
+                    a, op, b = rel
+                    if op in ("<", "<=") and b.strip().kind == "DeclRefExpr" and b.strip().d["d"] == iv_.d["d"]:
+                        lo_i = max(lo_i, RB.ieval(a, env, f).lo + (1 if op == "<" else 0))
+                    if op == "!=" and {canon(a), canon(b)} >= {canon(iv_)} and (a.strip().cv() == 0 or b.strip().cv() == 0):
+                        lo_i = max(lo_i, 1)
+                if lo_i < 1:
+                    bad.append("--%s at %s: nothing on this path keeps the unsigned counter above zero (its lower bound %s can be 0): "
+                               "the decrement wraps and the loop condition stays true" % (iv_.n, n.loc,
+                                                                                          "from the loop condition" if facts else "")) 
             ctx.inst("B8.no-unsigned-wrap", "%s%s" % (f.sig, tag), not bad, f.loc,
-                     "; ".join(bad[:2]) if bad else "%d unsigned subtractions, none can go below zero on the guarded range of the shift amount" % len(subs), f)
+                     "; ".join(bad[:2]) if bad else "%d unsigned subtractions and %d unsigned decrements, none can go below zero on the guarded "
+                     "range of the shift amount" % (len(subs), len(decs)), f)
         # B3 over all bitset members
         for f in fns:
             if any(n.kind in ("BinaryOperator", "CompoundAssignOperator") and n.op in ("<<", ">>", "<<=", ">>=") for n in f.events()):
@@ -312,7 +354,9 @@ def check_C18(ctx, unit, nbits):
                             rv = ob[0].return_nodes()[0].child("val") if ob and len(ob[0].return_nodes()) == 1 else None
                             pn = f.params()[0]
                             val = RA.resolve_local(f, a[1])
-                            if rv is not None:
+                            # (the spelled-out form must read the SOURCE reference only: a member of *this in it -- its own
+                            # index, its own bitset -- would turn into the same text after the substitution below)
+                            if rv is not None and not any(y.kind == "CXXThisExpr" for y in std_unwrap(val).walk()):
                                 want = canon(std_unwrap(rv))
                                 got = _re.sub(r"\b%s#%d\b" % (_re.escape(pn["n"]), pn["d"]), "this", canon(std_unwrap(val)))
                                 conv = want == got
